@@ -183,13 +183,13 @@ pub fn cmd_sign(args: &[String]) {
                 let want = so_sign(&msg, &sk, mode);
                 let mut got: Vec<(&str, Result<Vec<u8>, String>)> = vec![];
                 if mode == "pure" {
-                    got.push(("crypto_sign_detached", { let mut s = [0u8; 64]; csg::crypto_sign_detached(&mut s, &msg, &sk).map(|_| s.to_vec()).map_err(|e| format!("{:?}", e)) }));
-                    got.push(("crypto_sign (combined)", { let mut sm = vec![0u8; len + 64]; csg::crypto_sign(&mut sm, &msg, &sk).map_err(|e| format!("{:?}", e)).and_then(|_| if sm[64..] == msg[..] { Ok(sm[..64].to_vec()) } else { Err("combined form does not carry the message".into()) }) }));
+                    got.push(("crypto_sign_detached", { let mut s = [0xA5u8; 64]; csg::crypto_sign_detached(&mut s, &msg, &sk).map(|_| s.to_vec()).map_err(|e| format!("{:?}", e)) }));
+                    got.push(("crypto_sign (combined)", { let mut sm = vec![0x5Au8; len + 64]; csg::crypto_sign(&mut sm, &msg, &sk).map_err(|e| format!("{:?}", e)).and_then(|_| if sm[64..] == msg[..] { Ok(sm[..64].to_vec()) } else { Err("combined form does not carry the message".into()) }) }));
                     let kp: SigningKeyPair<StackByteArray<32>, StackByteArray<64>> = SigningKeyPair::from_seed(&kseed);
                     got.push(("SigningKeyPair::sign_with_defaults", kp.sign_with_defaults(msg.clone()).map(|s| { let (sig, _m) = s.into_parts(); sig.as_slice().to_vec() }).map_err(|e| format!("{:?}", e))));
                     got.push(("SigningKeyPair::sign + to_vec", kp.sign::<StackByteArray<64>, Vec<u8>>(msg.clone()).map(|s| s.to_vec()[..64].to_vec()).map_err(|e| format!("{:?}", e))));
                 } else {
-                    got.push(("crypto_sign_final_create", { let mut st = csg::crypto_sign_init(); csg::crypto_sign_update(&mut st, &msg); let mut s = [0u8; 64]; csg::crypto_sign_final_create(st, &mut s, &sk).map(|_| s.to_vec()).map_err(|e| format!("{:?}", e)) }));
+                    got.push(("crypto_sign_final_create", { let mut st = csg::crypto_sign_init(); csg::crypto_sign_update(&mut st, &msg); let mut s = [0xC3u8; 64]; csg::crypto_sign_final_create(st, &mut s, &sk).map(|_| s.to_vec()).map_err(|e| format!("{:?}", e)) }));
                     got.push(("IncrementalSigner::finalize", { let mut st = IncrementalSigner::new(); st.update(&msg); st.finalize::<Vec<u8>, _>(&sk).map_err(|e| format!("{:?}", e)) }));
                 }
                 for (name, g) in got {
